@@ -25,12 +25,12 @@ def run(ctx):
         "child interpreters run with OPENBLAS_NUM_THREADS=1 OMP_NUM_THREADS=1 so that a threaded BLAS reduction cannot be the reason two runs differ",
         "real-valued data, so that a change of summation order changes bits"])
     rep.rule = "every program emitted by TLC from spec/Rng.tla (all call sequences up to MaxHist); an output is non-trivial when its determinism key is seeded; distinct by key"
-    apis = {"rand", "randn", "normal", "randint", "init", "layers", "dropout", "split", "train", "tied", "cnn", "views", "large", "fanout"}
+    apis = {"rand", "randn", "normal", "randint", "init", "layers", "dropout", "split", "train", "tied", "cnn", "views", "large", "fanout", "onehot"}
     if ctx.replay:
         progs = [json.load(open(ctx.replay))["replay"]["hist"]]
         keysl = [json.load(open(ctx.replay))["replay"]["keys"]]
     else:
-        w, cfg = tlc.make_mc("Rng", dict(Seeds={0, 1}, APIs=apis, MaxHist=3 if q else 4), invariants=["Emit", "KeyForgetsPast"])
+        w, cfg = tlc.make_mc("Rng", dict(Seeds={0, 1}, APIs=apis, MaxHist=3 if q else 4, PureAPIs={"onehot"}), invariants=["Emit", "KeyForgetsPast"])
         res = tlc.run_tlc("Rng", cfg, workers=1, wrapper=w, timeout=3000)
         tlc.require_clean(res, "Rng")
         rep.tlc(res, "Rng.tla: %d programs" % len(res.cases))
@@ -64,6 +64,15 @@ def run(ctx):
         feed(hist, keys, rng_prog.run_program(sg, hist, junk=rnd.randint(1, 50)), "run 2 (same process, perturbed allocations)")
     # fresh interpreters under different hash seeds
     cross = sample[: (40 if q else 400)]
+    # (stratified: every random-consuming API occurs in at least two of the programs sent to the fresh interpreters)
+    for api in sorted(apis):
+        have = sum(1 for h_, _ in cross if any(c.get("api") == api for c in h_))
+        for h_, k_ in sample:
+            if have >= 2:
+                break
+            if any(c.get("api") == api for c in h_) and not any(h_ is x for x, _ in cross):
+                cross.append((h_, k_))
+                have += 1
     sc = tlc.scratch()
     payload = os.path.join(sc, "rng_programs.json")
     json.dump([[h_, rnd.randint(0, 30)] for h_, _ in cross], open(payload, "w"))
